@@ -121,6 +121,11 @@ func runC10(rep *TReport, raw json.RawMessage) {
 	case "basic_body_other":
 		req.SetBasicAuth(url.QueryEscape(id), url.QueryEscape(secret))
 		f.Set("client_id", "Y")
+	case "basic_id_body_secret":
+		req.SetBasicAuth(url.QueryEscape(id), "")
+		if secret != "" {
+			f.Set("client_secret", secret)
+		}
 	case "both":
 		req.SetBasicAuth(url.QueryEscape(id), url.QueryEscape(secret))
 		f.Set("client_id", id)
